@@ -11,6 +11,7 @@ D  collective shape: in MPI_Gather / MPI_Allgather the per-rank receive count eq
 import os
 
 import ir
+import inline
 from ir import walk, unwrap, show
 from accesses import Analyzer
 from effects import locate
@@ -321,6 +322,7 @@ def rule_C(ck, units):
             posts = [c for c in f.calls() if c.get('f') in ('MPI_Isend', 'MPI_Irecv')]
             if not posts:
                 continue
+            f = inline.expand(f, inline.same_class_helper())       # e.g. a private wait_all() helper
             key = '%s|%s' % (f.rel(), f.q)
             if key in done:
                 continue
@@ -421,6 +423,7 @@ def rule_C(ck, units):
                 fin = [g for g in u.funcs if g.q == 'amgcl::mpi::comm_pattern::finish_exchange' and g.clsfull == f.clsfull]
                 waited = set()
                 for g in fin:
+                    g = inline.expand(g, inline.same_class_helper())
                     for c in g.calls():
                         if c.get('f') in ('MPI_Waitall', 'MPI_Wait'):
                             names = []
